@@ -7,6 +7,7 @@ import Driver.DurCmd
 import Driver.ProtoCmd
 import Driver.FilesCmd
 import Driver.SchedCmd
+import Driver.LruCmd
 /-
 `raindrv`: one request per line on stdin, one answer per line on stdout.
 Unknown or malformed requests answer `bad-request` (never a default value).
@@ -27,6 +28,7 @@ def dispatch (toks : List String) : String :=
       else if cmd.startsWith "proto." then protoCmd toks
       else if cmd.startsWith "files." then filesCmd toks
       else if cmd.startsWith "sched." then schedCmd toks
+      else if cmd.startsWith "lru." then lruCmd toks
       else none
     match r with
     | some s => s
